@@ -37,7 +37,7 @@ PROBES = ["char_argument", "char_return", "class_name_shared_by_two_namespaces",
           "shared_pointer_argument", "default_argument_omitted", "illformed_call_refused", "pair_return",
           "property_roundtrip", "inherited_method_called", "enum_argument", "enum_return",
           "retained_object_returned_twice", "calls_after_unload", "nonconst_reference_argument",
-          "uint64_argument_above_2_53", "class_typed_property_read", "class_typed_property_written",
+          "uint64_argument_above_2_53", "negative_int_result", "size_t_result_above_2_63", "class_typed_property_read", "class_typed_property_written",
           "template_instantiation_used", "library_retained_an_argument", "ambiguous_overload_shadowed"]
 
 
@@ -467,19 +467,22 @@ class Hist:
                 if not isinstance(o, S.MArrayRef) and not isinstance(o, (S.MDouble, S.MInt, S.MLogical)):
                     return bad("not numeric")
                 if isinstance(o, S.MArrayRef):
+                    # the number MATLAB sees: the array's bytes read by the array's class (any integer class that
+                    # holds the value is as good as another; the same bits under a class of the other signedness
+                    # are another number)
                     val = o.scalar()
                     self.s.simple("free %d" % o.slot, "ok")
-                    if val is not None and ty.name != "int":
-                        val &= 0xFFFFFFFFFFFFFFFF
                 else:
                     val = self.s.num(o)
                 want = int(r[2:])
-                if ty.name == "int" and val is not None:
-                    # the header stores an int in the low bytes of a wider unsigned array today; a signed
-                    # 32-bit array would be just as right: compare as 32-bit two's complement
-                    val, want = int(val) & 0xFFFFFFFF, want & 0xFFFFFFFF
+                if want < 0:
+                    self.pr("negative_int_result")
+                if want >= 1 << 63:
+                    self.pr("size_t_result_above_2_63")
+                if ty.name == "bool" and val is not None:
+                    val, want = int(bool(val)), int(bool(want))
                 if val != want:
-                    bad("value %r != %r" % (val, want))
+                    bad("MATLAB sees %r, the C++ result is %r" % (val, want))
             elif ty.name == "char":
                 # today a char comes back in the low byte of a 1x1 unsigned array; a MATLAB char would be as right
                 if isinstance(o, S.MChar):
